@@ -516,7 +516,7 @@ Definition has_frag_leaf (l : list (path * leaf)) : bool :=
 
 Definition oracle_key (S : schema) (d : document) (specific : string) : string :=
   if negb (schema_loadable S) then "type-ref-deeper-than-introspection-query"
-  else if excl_decl_clash S d then "decl-name-clash"
+  else if excl_decl_clash_s S d then "decl-name-clash"
   else specific.
 
 (** oracle for one in-envelope case: the property's claims about the implementation's output *)
@@ -656,6 +656,7 @@ Definition check (c : sexp) : sexp :=
                                             (if in_env then ["in-envelope"] else ["outside-envelope"]) ++
                                             (if decl_safe Sch d then ["decl-safe"] else ["decl-unsafe-by-names"]) ++
                                             (if excl_member_clash Sch d then ["member-names-suffixed"] else []) ++
+                                            (if excl_decl_clash Sch d then ["declaration-names-suffixed"] else []) ++
                                             (if existsb (fun t => Nat.eqb (wrappers t) typeref_depth) (field_types Sch) then ["seven-wrappers"] else []) ++
                                             (if cb then ["compiles"] else ["does-not-compile"]) ++
                                             (if cb && negb (order_free d) then ["decode-not-compared-field-order-dependent"] else []) ++
